@@ -253,6 +253,9 @@ VP_HARNESS(h_enc_reset)
 #ifndef PMAX
 #define PMAX MAXB  // the earlier call's max frame size
 #endif
+#ifndef CFG
+#define CFG 0   // configuration change between the two calls: 1 device id, 2 stream id, 3 restart, 4 both ids
+#endif
 VP_HARNESS(h_enc_twice)
 {
     Src* s = &g_src;
@@ -277,6 +280,25 @@ VP_HARNESS(h_enc_twice)
         Frames* f0 = new Frames(e->encode(*p0, c0));
         vp_assert(f0->size() >= 1, "C10: the earlier call produced frames");
     }
+#if CFG == 1
+    // configuration change between the calls (C09: "any history of configuration changes and encode calls")
+    s->deviceId = vp_u16();
+    e->setDeviceId(s->deviceId);
+#elif CFG == 2
+    s->streamId = vp_u8();
+    e->setStreamId(s->streamId);
+#elif CFG == 3
+    e->restart();
+#elif CFG == 4
+    s->deviceId = vp_u16();
+    s->streamId = vp_u8();
+    e->setStreamId(s->streamId);
+    e->setDeviceId(s->deviceId);
+#endif
+#if CFG
+    vp_assert(e->getSequenceCounter() == 0, "C09: reported counter is 0 after setDeviceId/setStreamId/restart that follows an encode call");
+    vp_assert(e->getDeviceId() == s->deviceId && e->getStreamId() == s->streamId, "C09: configured ids are reported");
+#endif
     s->start = e->getSequenceCounter();
     Model* m = &g_model;
     m->n = 0;
